@@ -13,6 +13,7 @@ import (
 	"reflect"
 	"strings"
 	"sync"
+	"sync/atomic"
 	"syscall"
 	"time"
 
@@ -58,6 +59,7 @@ type req struct {
 	ErrMode string          `json:"errmode"`
 	Verbose bool            `json:"verbose"`
 	CtxDone bool            `json:"ctxdone"`
+	CtxMid  bool            `json:"ctxmid"` // the context is cancelled WHILE the function runs: Run returns the function's own result, after it finished
 	Raw     json.RawMessage `json:"raw"`
 }
 
@@ -183,7 +185,16 @@ func fromVal(v val) interface{} {
 	panic("bad val type " + v.T)
 }
 
+// set by doF for a "cancelled in mid-run" call: the function blocks until that context is done, then works on for a moment
+var midCtx context.Context
+var midFinished int32
+
 func record(id int, fixed []interface{}, tail interface{}) {
+	if c := midCtx; c != nil {
+		<-c.Done()
+		time.Sleep(25 * time.Millisecond)
+		defer atomic.StoreInt32(&midFinished, 1)
+	}
 	recMu.Lock()
 	defer recMu.Unlock()
 	recCalls++
@@ -226,7 +237,7 @@ type fRes struct {
 	Run          *runRes `json:"run,omitempty"`
 }
 
-func doF(target interface{}, args []interface{}, ctxDone bool) (res fRes) {
+func doF(target interface{}, args []interface{}, ctxDone, ctxMid bool) (res fRes) {
 	var f mg.Fn
 	func() {
 		defer func() {
@@ -263,9 +274,23 @@ func doF(target interface{}, args []interface{}, ctxDone bool) (res fRes) {
 			cancel()
 			runCtx = c
 		}
+		if ctxMid && !ctxDone {
+			c, cancel := context.WithCancel(theCtx)
+			runCtx = c
+			midCtx = c
+			atomic.StoreInt32(&midFinished, 0)
+			go func() { time.Sleep(15 * time.Millisecond); cancel() }()
+			defer func() { midCtx = nil }()
+		}
 		expectCtx = runCtx
 		err := f.Run(runCtx)
+		early := ctxMid && !ctxDone && atomic.LoadInt32(&midFinished) == 0
+		if early {
+			time.Sleep(80 * time.Millisecond) // let the function finish before the next request
+		}
 		switch {
+		case early:
+			rr.Err = "other:Run returned while the function was still running (context cancelled in mid-run): " + fmt.Sprint(err)
 		case err == nil:
 			rr.Err = "nil"
 		case poolErr != nil && reflect.TypeOf(err) == reflect.TypeOf(poolErr) && fmt.Sprintf("%p", err) == fmt.Sprintf("%p", poolErr) || errorsIdentical(err, poolErr):
@@ -371,7 +396,12 @@ func main() {
 			default:
 				target = pool[r.Fn]
 			}
-			ans = doF(target, vals(r.Args), r.CtxDone)
+			if r.Verbose {
+				os.Setenv("MAGEFILE_VERBOSE", "1")
+			} else {
+				os.Setenv("MAGEFILE_VERBOSE", "0")
+			}
+			ans = doF(target, vals(r.Args), r.CtxDone, r.CtxMid)
 		case "pair":
 			poolErr = nil
 			if r.Verbose {
